@@ -29,7 +29,14 @@ const (
 		"Distinct: different action/outcome sequence."
 	ruleC11 = "same harness (incl. alternative hex spellings of the same key bytes in every call that names a peer). Non-trivial: the history contains a successful quitNode or blackNode followed later by a successful " +
 		"withdraw that paid ONT out of governance. Distinct: different action/outcome sequence. Every successful withdraw is also " +
-		"judged against an independent release model kept only from the arguments of the successful calls (per address and per address/peer pair)."
+		"judged against an independent release model kept only from the arguments of the successful calls (per address and per address/peer pair). " +
+		"Every method that takes a list of peers (withdraw, authorizeForPeer, unAuthorizeForPeer with parallel amount lists, blackNode) is also " +
+		"called with the same peer named 2-3 times in one list (~30% of the state-built withdraws, ~18% of the authorize/un-authorize calls, ~15% of " +
+		"the blackNode calls, a quarter of the arbitrary lists; sometimes with another peer in between, and in the respelt steps in different " +
+		"spellings): amounts that are each valid on their own (1..unfrozen pos, multiples of MinAuthorizePos up to the position / the headroom " +
+		"and the payer's ONT) and whose sum is below, equal to, or above what the state offers for that peer. The release model and the judgement " +
+		"of a withdraw take the entries one after the other: all entries of a peer together take no more than was unfrozen on it, the unfrozen " +
+		"record shrinks by exactly their sum, and no more ONT is paid than the call asked for."
 	assume1 = "set-up: the ONT owner moves Σ genesis InitPos ONT to the governance address (initConfig only records the genesis stakes), as on every production network"
 	assume2 = "set-up: on network id 3 the whole ONG supply is minted to bookkeeper 0; it moves an ONG pool to the ONT contract address (pays ONG unbound to governance), to a bank account (governance income) and to the cast (candidate fee)"
 	assume4 = "witness sets contain only key-holding accounts, never a contract address (governance, ONT, zero address): no transaction can carry those"
@@ -77,6 +84,15 @@ func collector(prop string) *harn.Collector {
 		fl("blackNode:ok:reblacklist-with-undrained-penalty", "blackNode:ok", 0.03)
 		fl("addInitPos:ok", "addInitPos", 0.30)
 		fl("reduceInitPos:ok", "reduceInitPos", 0.15)
+		// the same peer named 2-3 times in one list (entries are processed one after the other)
+		fl("withdraw:repeat", "withdraw", 0.10)
+		fl("withdraw:repeat:exceeds:failed", "withdraw:repeat", 0.12)
+		fl("withdraw:repeat:equal:ok", "withdraw:repeat", 0.12)
+		fl("withdraw:repeat:below:ok", "withdraw:repeat", 0.08)
+		fl("withdraw:ok:repeat:paid>0", "withdraw:ok:paid>0", 0.08)
+		fl("unAuthorizeForPeer:repeat", "unAuthorizeForPeer", 0.06)
+		fl("authorizeForPeer:repeat", "authorizeForPeer", 0.06)
+		fl("hist:repeated-peer-in-list", "", 0.50)
 		fl("hist:nontrivial", "", 0.15)
 	}
 	return ev
@@ -150,6 +166,9 @@ func runHistories(t *testing.T, prop string, prof *profile, steps, quickN, thoro
 		}
 		if h.dupStaked {
 			ev.Class("hist:respelt-pool-key:staked")
+		}
+		if h.repeated {
+			ev.Class("hist:repeated-peer-in-list")
 		}
 		if h.dupSplit {
 			ev.Class("hist:respelt-pool-key:then-split2")
